@@ -4,6 +4,7 @@ threshold (exactly DAYS days ago, +-1 s, +-1 day, far past, future)."""
 from __future__ import annotations
 
 import datetime as _dt
+import posixpath
 
 from gen import base as G
 from gen import trashgen as TG
@@ -17,13 +18,14 @@ ENGINE = 'history'
 BUDGET = {'quick': 12000, 'thorough': 200000}
 WALL = {'quick': 45, 'thorough': 1500}
 RULE = ('one trash-empty [DAYS] per case over a trash whose entries have dates at now-DAYS+delta '
-        '(delta in 0, +-1 s, +-1 day, year 1, future), malformed/duplicated/missing dates, several trash dirs; '
+        '(delta in 0, +-1 s, +-1 day, year 1, future), malformed/duplicated/missing dates, several trash dirs; a quarter of the cases with 1 <= DAYS <= 366 run a trash-put of 1-2 fresh files '
+        'concurrently under the seeded scheduler (uniform / PCT / sweep): those entries are dated now and must be kept whole; '
         'now from the simulated clock (local time with microseconds, on a machine whose UTC offset is 0, +1 h, -5 h, +5:30, +9:30, +14 h or -12 h) or TRASH_DATE; non-trivial = at least one entry on each '
         'side of the threshold or an entry exactly on it; distinct = (DAYS, clock source, sorted multiset of deltas)')
 ASSUMPTIONS = ['DeletionDate values that strptime accepts but the spec format does not (single-digit fields) are not generated']
 PROBES = ['removed', 'kept', 'exactly-on-threshold', 'one-second-older', 'one-second-younger', 'undated-kept',
           'orphan-purged', 'trash_date_env', 'sim_clock', 'volume-trash-entry', 'duplicate-date-lines', 'far-past', 'future',
-          'non-utc-zone']
+          'non-utc-zone', 'concurrent-put', 'fresh-entry-kept-whole']
 TECHNIQUE = 'deterministic simulation with a scripted clock; threshold oracle on exact datetimes'
 LEVEL_TEXT = ('seeded exploration of (DAYS, now, deletion date) with dates placed on and around the threshold, judged by exact '
               'datetime arithmetic on the clock values the command actually read')
@@ -97,14 +99,45 @@ def gen(rng):
         argv.append(rng.choice(['-v', '-f']))
     if days is not None:
         argv.append(str(days))
+    procs = [{'argv': argv, 'env': env, 'cwd': '/', 'uid': uid}]
+    sched = None
+    if days is not None and 1 <= days <= 366 and not use_env and rng.random() < 0.25:
+        # a trash-put of the same user runs at the same time: what it trashes is dated 'now', so trash-empty DAYS (>= 1) must keep it
+        # whole - info and payload - whatever the interleaving
+        tdir, top, _u = rng.choice(locs)
+        wd = (L['home'] + '/w') if top is None else L['work'][top]
+        fresh = []
+        for j in range(rng.randint(1, 2)):
+            steps.append(['f', wd + '/fresh%d' % j, 'fresh content %d' % j, 0o644])
+            fresh.append(wd + '/fresh%d' % j)
+        procs.append({'argv': ['trash-put', '--'] + fresh, 'env': env, 'cwd': '/', 'uid': uid})
+        sched = {'strategy': rng.choice(['uniform', 'uniform', 'pct', 'sweep', 'sweep']), 'seed': rng.randrange(1 << 30), 'depth': rng.randint(1, 3),
+                 'sweep': {'pid': rng.choice([1, 1, 2]), 'k': rng.randrange(0, 40)}}
     return {
         'world': {'mounts': L['mounts'], 'steps': steps},
-        'procs': [{'argv': argv, 'env': env, 'cwd': '/', 'uid': uid}],
+        'procs': procs,
+        'sched': sched,
         'dirsalt': rng.randrange(1 << 30),
         'clock': {'start': now.strftime('%Y-%m-%dT%H:%M:%S.%f'), 'tick_us': rng.choice([0, 0, 137, 400000]),
                   # the simulated machine's zone: DeletionDate values are local times, so must be the 'now' they are compared with
                   'utcoffset_s': rng.choice([0, 3600, -18000, 19800, 34200, 50400, -43200])},
     }
+
+
+def days_of(spec):
+    return ' '.join(a for a in spec['argv'][1:] if not a.startswith('-'))
+
+
+def pin(case, sig):
+    """a replay uses the recorded choice list, not the PRNG"""
+    import copy
+    c = copy.deepcopy(case)
+    if c.get('sched'):
+        rec = c['sched'].pop('recorded', None)
+        if rec is not None:
+            c['sched']['choices'] = rec
+            c['sched']['strategy'] = 'replay'
+    return c
 
 
 def check(sim, case, st):
@@ -117,11 +150,43 @@ def check(sim, case, st):
     orph0 = [(T, N) for T, _b, _k in MB.usable_trash_dirs(snap0, env, uid, mounts) for N in MB.orphans(snap0, T)]
     from sim import proc as P
     local0 = P.CLOCK.now
-    r = sim.run(spec)
+    res = []
+    if len(case['procs']) > 1 and case.get('sched'):
+        import random as _random
+        from oracles import put as OP
+        from sim import sched as SS
+        put = case['procs'][1]
+        named = [OP.name_entry(sim.root, put.get('cwd', '/'), a, snap0, mounts) for a in put['argv'][put['argv'].index('--') + 1:]]
+        sc = case['sched']
+        chooser = SS.Chooser(_random.Random(sc.get('seed', 0)), sc.get('strategy', 'uniform'), nprocs=2, choices=sc.get('choices'),
+                             depth=sc.get('depth', 2), est_ops=300, sweep=sc.get('sweep'))
+        skel = OP.candidate_skeleton(env, uid, mounts)
+        shared = sorted(set(posixpath.dirname(posixpath.dirname(p_)) for p_ in skel if p_.endswith('/files')))
+        results, sch = SS.run_concurrent(sim, [spec, put], chooser, shared_prefixes=tuple(shared))
+        r, rp = results
+        case['sched']['recorded'] = list(chooser.recorded)
+        st.probes['concurrent-put'] += 1
+        st.probes['context-switches'] += sch.switches
+        # the empty process read the clock; the put's readings belong to the put
+        r.clock = [v for (pid_, v) in P.CLOCK.readings if pid_ == r.pid]
+        snap1 = sim.snap()
+        outs, probs = OP.judge(sim.root, snap0, snap1, named, mounts, skel)
+        for clause, detail, nm in probs:
+            if nm is None and clause == 'unexplained-removal':
+                continue        # what trash-empty removed is judged below, entry by entry
+            res.append(('C10/concurrent-put/%s' % clause, 'trash-empty %s with a concurrent trash-put: %s %s (strategy %s, %d switches, exits %s/%s)\nstderr: %s | %s'
+                        % (days_of(spec), clause, detail if nm is None else nm.arg, sc.get('strategy'), sch.switches, r.exit, rp.exit, r.errs[-300:], rp.errs[-300:])))
+        for o in outs:
+            if o.state == 'trashed':
+                st.probes['fresh-entry-kept-whole'] += 1
+            elif rp.exit == 0:
+                res.append(('C10/concurrent-put/fresh-entry-not-whole:%s' % o.state, 'trash-put exited 0 but %r is %s %s after the concurrent trash-empty %s'
+                            % (o.named.arg, o.state, o.why, days_of(spec))))
+    else:
+        r = sim.run(spec)
+        snap1 = sim.snap()
     st.sims += 1
     st.ops += r.nops
-    snap1 = sim.snap()
-    res = []
     days = None
     for a in spec['argv'][1:]:
         if not a.startswith('-'):
